@@ -86,8 +86,11 @@ def qv1(ctx: Ctx):
                 if not ok:
                     continue
                 if kind == "ret":
-                    outcomes.add(classify(v, vt))
-                    if classify(v, vt) == "str(float(v))":
+                    c = classify(v, vt)
+                    if T == "float" and c == "str(v)":
+                        c = "str(float(v))"      # float(v) is v itself for an exact float: the two spellings are one value
+                    outcomes.add(c)
+                    if c == "str(float(v))":
                         f = s.facts
                         nan_guard = (any(k[0] == "call" and k[1][-1] == "isinf" and not fv for k, fv in f.items()) and
                                      any(k[0] == "call" and k[1][-1] == "isnan" and not fv for k, fv in f.items())) or \
